@@ -14,6 +14,44 @@ schema("ExecutionResponse", place_instruction_reports=ListOf(Ref("InstructionRep
        update_instruction_reports=ListOf(Ref("InstructionReport")), replace_instruction_reports=ListOf(Ref("InstructionReport")))
 
 
+# ghost (C12/C11): the answer of the exchange to the call made for a package.  No flumine code reads or writes `_response`; the
+# assumed contract of the exchange call (trading_function below) records its result there so that the postconditions of the
+# handlers can speak about "the call was answered" and about the reports of that answer (same device as BaseFlumine._sent, C02).
+schema("BaseOrderPackage", _response=Opt(Ref("ExecutionResponse")))
+
+BET_TAKEN_OR_LAPSED = "BET_TAKEN_OR_LAPSED"
+
+
+def answered(pkg):
+    """the exchange call of this activation returned a response (it is a new object; an earlier answer is not)"""
+    return pkg._response is not None and is_fresh(pkg._response)
+
+
+def report_status_known(r):
+    return r.status == "SUCCESS" or r.status == "FAILURE" or r.status == "TIMEOUT"
+
+
+def statuses_known(reports):
+    return forall(lambda j: report_status_known(reports[j]), 0, len(reports))
+
+
+def bet_ids_distinct(l):
+    """exchange bet ids identify orders: two different orders of a package that await the response never share one"""
+    return forall_int(lambda a, b: implies(0 <= a and a < b and b < len(l) and l[a].status != OrderStatus.VIOLATION and l[b].status != OrderStatus.VIOLATION,
+                                           l[a].bet_id != l[b].bet_id))
+
+
+def cancel_outcome(o, r, remaining_before):
+    """C11 (agreement with the exchange on completeness) for one cancel report r applied to order o that held `remaining_before`:
+    SUCCESS: nothing is left at the exchange exactly when the cancelled size is the whole remainder, or the remainder was
+    already 0 (the order stream overtook the response); FAILURE: the bet is gone only for BET_TAKEN_OR_LAPSED; TIMEOUT: live."""
+    return ((o.status == OrderStatus.EXECUTION_COMPLETE or o.status == OrderStatus.EXECUTABLE)
+            and o.update_data["size_reduction"] is None and o.update_data["new_price"] is None  # the request is over: its data is reset
+            and implies(r.status == "SUCCESS", iff(o.status == OrderStatus.EXECUTION_COMPLETE, r.size_cancelled == remaining_before or remaining_before == 0))
+            and implies(r.status == "FAILURE", iff(o.status == OrderStatus.EXECUTION_COMPLETE, r.error_code == BET_TAKEN_OR_LAPSED))
+            and implies(r.status == "TIMEOUT", o.status == OrderStatus.EXECUTABLE))
+
+
 def awaiting(o, package_type):
     return o.status == in_flight_status_of(package_type)
 
@@ -32,6 +70,10 @@ def package_awaits_response(pkg):
 def _(self, order_package: Ref("BaseOrderPackage"), http_session: Opt(ATOM)) -> Ref("ExecutionResponse"):
     raises(BetfairError, label="api_error")
     raises(Exception, label="unknown_error")
+    modifies(order_package, "_response")  # ghost
+    ensures("the_answer_is_recorded", order_package._response == result)  # ghost bookkeeping, see above
+    # assumed contract of the API (DESIGN C12, A7): every instruction report carries one of the three documented statuses
+    ensures("documented_report_statuses", statuses_known(result.cancel_instruction_reports) and statuses_known(result.update_instruction_reports))
     ensures("a_new_response_object", is_fresh(result) and is_fresh(result.place_instruction_reports) and is_fresh(result.cancel_instruction_reports)
             and is_fresh(result.update_instruction_reports) and is_fresh(result.replace_instruction_reports))
 
@@ -39,6 +81,7 @@ def _(self, order_package: Ref("BaseOrderPackage"), http_session: Opt(ATOM)) -> 
 @contract("flumine/order/orderpackage.py::BaseOrderPackage.retry", tags=["C03"])
 def _(self) -> BOOL:
     modifies(self, "_retry_count")
+    ensures("count_moves_exactly_when_a_retry_is_granted", self._retry_count == old(self._retry_count) + (1 if result else 0))
 
 
 @contract("flumine/execution/baseexecution.py::BaseExecution.handler", tags=["C12"])
@@ -53,12 +96,13 @@ def _(self, http_session: Opt(ATOM), err: BOOL = False):
     trusted("session pool bookkeeping (requests.Session objects): no order state")
 
 
-@contract("flumine/execution/betfairexecution.py::BetfairExecution._execution_helper", tags=["C03"])
+@contract("flumine/execution/betfairexecution.py::BetfairExecution._execution_helper", tags=["C03", "C12"])
 def _(self, trading_function: virtual_callable("BetfairExecution", "trading_function"), order_package: Ref("BaseOrderPackage"), http_session: Opt(ATOM)) -> Opt(Ref("ExecutionResponse")):
     requires("package_kind", known_package_type(order_package.package_type))
     requires("orders_distinct", distinct_orders(order_package._orders))
     requires("orders_await_this_response", package_awaits_response(order_package))
     modifies(order_package, "_retry_count")
+    modifies(order_package, "_response")  # ghost (C12): written by the assumed contract of the exchange call only
     modifies_all("BaseOrder.status")
     modifies_all("BaseOrder.complete")
     modifies_all("BaseOrder.date_time_status_update")
@@ -69,7 +113,15 @@ def _(self, trading_function: virtual_callable("BetfairExecution", "trading_func
     modifies_all("RunnerContext.datetime_last_reset")
     modifies_all_lists(ATOM)
     modifies_all_maps(MapOf(Tup(ATOM, INT, REAL), Ref("RunnerContext")))
+    # C12: a response is handed to the caller exactly when the exchange answered this call, and it is that answer
+    ensures("a_response_is_the_recorded_answer", implies(result is not None, order_package._response == result))
+    ensures("answered_iff_a_response_is_returned", iff(result is not None, answered(order_package)))
+    ensures("documented_report_statuses", implies(result is not None, statuses_known(result.cancel_instruction_reports) and statuses_known(result.update_instruction_reports)))
     ensures("with_a_response_nothing_was_touched", implies(result is not None, forall(lambda k: order_package._orders[k].status == old(order_package._orders[k].status), 0, len(order_package._orders))))
+    # C03 (one operation in flight): a package that was handed back for a retry is still outstanding - its orders keep their
+    # in-flight status, so that further requests on them are refused until the retried call is answered
+    ensures("resubmitted_package_keeps_its_orders_in_flight", implies(order_package._retry_count > old(order_package._retry_count),
+            forall(lambda k: order_package._orders[k].status == old(order_package._orders[k].status), 0, len(order_package._orders))))
     ensures("the_response_is_new", implies(result is not None, is_fresh(result) and is_fresh(result.place_instruction_reports) and is_fresh(result.cancel_instruction_reports)
                                            and is_fresh(result.update_instruction_reports) and is_fresh(result.replace_instruction_reports)))
 
@@ -91,6 +143,7 @@ def _(self, order_package: Ref("BetfairOrderPackage"), http_session: Opt(ATOM)):
     invariant(0, "reports_untouched", len(response.place_instruction_reports) == len(_seq0_1))
     raises(AttributeError, label="failed_order_without_any_current_order", modifies="same")
     modifies(order_package, "_retry_count")
+    modifies(order_package, "_response")  # ghost (C12): written by the assumed contract of the exchange call only
     modifies_all("BaseOrder.status")
     modifies_all("BaseOrder.complete")
     modifies_all("BaseOrder.date_time_status_update")
@@ -111,7 +164,7 @@ def _(self, order_package: Ref("BetfairOrderPackage"), http_session: Opt(ATOM)):
     modifies_all_maps(MapOf(Tup(ATOM, INT, REAL), Ref("RunnerContext")))
 
 
-@contract("flumine/execution/betfairexecution.py::BetfairExecution.execute_update", tags=["C03"])
+@contract("flumine/execution/betfairexecution.py::BetfairExecution.execute_update", tags=["C03", "C12"])
 def _(self, order_package: Ref("BetfairOrderPackage"), http_session: Opt(ATOM)):
     requires("package_kind", order_package.package_type == OrderPackageType.UPDATE)
     requires("orders_distinct", distinct_orders(order_package._orders))
@@ -119,7 +172,19 @@ def _(self, order_package: Ref("BetfairOrderPackage"), http_session: Opt(ATOM)):
     requires("heap_closure", orders_existed(order_package))
     invariant(0, "ahead", forall(lambda j: implies(_i0 <= j, _seq0_0[j].status == OrderStatus.UPDATING), 0, len(_seq0_0)))
     invariant(0, "reports_untouched", len(response.update_instruction_reports) == len(_seq0_1))
+    # C12 (positional pairing: report j belongs to the j-th awaiting order): the orders already paired with a report are EXECUTABLE again
+    invariant(0, "behind", forall(lambda j: implies(j < _i0, _seq0_0[j].status == OrderStatus.EXECUTABLE and _seq0_0[j].update_data["size_reduction"] is None
+                                                    and _seq0_0[j].update_data["new_price"] is None), 0, len(_seq0_0)))
+    invariant(0, "refused_orders_are_not_touched", forall(lambda k: implies(old(order_package._orders[k].status) == OrderStatus.VIOLATION,
+                                                                            order_package._orders[k].status == OrderStatus.VIOLATION), 0, len(order_package._orders)))
+    # C12 "leave none in flight": when the answer carries a report for every order of the package (assumed API contract: one report per
+    # instruction sent, in order) no order is left UPDATING: each awaiting order is EXECUTABLE with its request data reset
+    ensures("no_order_left_in_flight", implies(answered(order_package) and len(order_package._response.update_instruction_reports) >= len(order_package._orders),
+            forall(lambda k: implies(old(order_package._orders[k].status) == OrderStatus.UPDATING,
+                                     order_package._orders[k].status == OrderStatus.EXECUTABLE and order_package._orders[k].update_data["size_reduction"] is None
+                                     and order_package._orders[k].update_data["new_price"] is None), 0, len(order_package._orders))))
     modifies(order_package, "_retry_count")
+    modifies(order_package, "_response")  # ghost
     modifies_all("BaseOrder.status")
     modifies_all("BaseOrder.complete")
     modifies_all("BaseOrder.date_time_status_update")
@@ -137,21 +202,69 @@ def _(self, order_package: Ref("BetfairOrderPackage"), http_session: Opt(ATOM)):
     modifies_all_maps(MapOf(Tup(ATOM, INT, REAL), Ref("RunnerContext")))
 
 
-@contract("flumine/execution/betfairexecution.py::BetfairExecution.execute_cancel", tags=["C03"])
+@contract("flumine/execution/betfairexecution.py::BetfairExecution.execute_cancel", tags=["C03", "C12", "C11"])
 def _(self, order_package: Ref("BetfairOrderPackage"), http_session: Opt(ATOM)):
     requires("package_kind", order_package.package_type == OrderPackageType.CANCEL)
     requires("orders_distinct", distinct_orders(order_package._orders))
     requires("orders_await_this_response", package_awaits_response(order_package))
     requires("heap_closure", orders_existed(order_package))
+    # C12/C11 (pairing by bet id): the exchange's bet ids identify the orders that await this response
+    requires("bet_ids_identify_the_orders", bet_ids_distinct(order_package._orders))
     local(order_lookup=MapOf(Opt(ATOM), Ref("BaseOrder")))
     # the orders still waiting for their report: each is found under its own bet id and is still CANCELLING
     invariant(0, "waiting", forall_key(lambda b: order_lookup[b].status == OrderStatus.CANCELLING and order_lookup[b].bet_id == b
                                        and not is_fresh(order_lookup[b]), order_lookup))
     invariant(0, "reports_untouched", len(response.cancel_instruction_reports) == len(_seq0))
+    # C12: an order of the package is found under its own bet id as long as it waits, and it waits as long as it is CANCELLING
+    invariant(0, "lookup_by_own_bet_id", forall(lambda k: implies(old(order_package._orders[k].status) == OrderStatus.CANCELLING and order_package._orders[k].bet_id in order_lookup,
+                                                                  order_lookup[order_package._orders[k].bet_id] == order_package._orders[k]), 0, len(order_package._orders)))
+    invariant(0, "in_flight_only_while_waiting", forall(lambda k: implies(order_package._orders[k].status == OrderStatus.CANCELLING,
+                                                                          order_package._orders[k].bet_id in order_lookup), 0, len(order_package._orders)))
+    # C11: the reports processed so far were applied to the order with their bet id, and that order now agrees with the exchange
+    invariant(0, "answered_bet_ids_are_gone", forall(lambda j: implies(j < _i0, not (_seq0[j].instruction.bet_id in order_lookup)), 0, len(_seq0)))
+    invariant(0, "reports_so_far_applied", forall(lambda k: forall(lambda j: implies(
+        j < _i0 and old(order_package._orders[k].status) == OrderStatus.CANCELLING and _seq0[j].instruction.bet_id == order_package._orders[k].bet_id,
+        cancel_outcome(order_package._orders[k], _seq0[j], old(order_package._orders[k].size_remaining))), 0, len(_seq0)), 0, len(order_package._orders)))
+    invariant(0, "reports_list_intact", forall(lambda j: response.cancel_instruction_reports[j] == _seq0[j], 0, len(_seq0)))
+    invariant(1, "answered_bet_ids_are_gone", forall(lambda j: not (response.cancel_instruction_reports[j].instruction.bet_id in order_lookup), 0, len(response.cancel_instruction_reports)))
+    invariant(1, "every_report_applied", forall(lambda k: forall(lambda j: implies(
+        old(order_package._orders[k].status) == OrderStatus.CANCELLING and response.cancel_instruction_reports[j].instruction.bet_id == order_package._orders[k].bet_id,
+        cancel_outcome(order_package._orders[k], response.cancel_instruction_reports[j], old(order_package._orders[k].size_remaining))),
+        0, len(response.cancel_instruction_reports)), 0, len(order_package._orders)))
+    # C12: an order for which no report has been seen is still waiting, and the waiting ones are made EXECUTABLE by the second loop
+    invariant(0, "orders_without_report_still_wait", forall(lambda k: implies(old(order_package._orders[k].status) == OrderStatus.CANCELLING,
+        order_package._orders[k].bet_id in order_lookup or exists(lambda j: j < _i0 and _seq0[j].instruction.bet_id == order_package._orders[k].bet_id, 0, len(_seq0))),
+        0, len(order_package._orders)))
+    invariant(1, "orders_without_report_are_in_the_lookup", forall(lambda k: implies(old(order_package._orders[k].status) == OrderStatus.CANCELLING,
+        order_package._orders[k].bet_id in order_lookup
+        or exists(lambda j: response.cancel_instruction_reports[j].instruction.bet_id == order_package._orders[k].bet_id, 0, len(response.cancel_instruction_reports))),
+        0, len(order_package._orders)))
+    invariant(1, "behind", forall(lambda j: implies(j < _i1, order_lookup[_seq1[j]].status == OrderStatus.EXECUTABLE), 0, len(_seq1)))
+    invariant(0, "refused_orders_are_not_touched", forall(lambda k: implies(old(order_package._orders[k].status) == OrderStatus.VIOLATION,
+                                                                            order_package._orders[k].status == OrderStatus.VIOLATION), 0, len(order_package._orders)))
+    invariant(1, "refused_orders_are_not_touched", forall(lambda k: implies(old(order_package._orders[k].status) == OrderStatus.VIOLATION,
+                                                                            order_package._orders[k].status == OrderStatus.VIOLATION), 0, len(order_package._orders)))
+    invariant(1, "lookup_by_own_bet_id", forall(lambda k: implies(old(order_package._orders[k].status) == OrderStatus.CANCELLING and order_package._orders[k].bet_id in order_lookup,
+                                                                  order_lookup[order_package._orders[k].bet_id] == order_package._orders[k]), 0, len(order_package._orders)))
+    invariant(1, "in_flight_only_while_ahead", forall(lambda k: implies(order_package._orders[k].status == OrderStatus.CANCELLING,
+                                                                        exists(lambda j: _i1 <= j and _seq1[j] == order_package._orders[k].bet_id, 0, len(_seq1))), 0, len(order_package._orders)))
     invariant(1, "ahead", forall(lambda j: implies(_i1 <= j, order_lookup[_seq1[j]].status == OrderStatus.CANCELLING
                                                    and order_lookup[_seq1[j]].bet_id == _seq1[j] and not is_fresh(order_lookup[_seq1[j]])), 0, len(_seq1)))
     raises(KeyError, label="report_for_a_bet_id_that_is_not_in_the_package", modifies="same")  # pairing of reports and orders: C12
+    # C12 "leave none in flight": after an answered call no order of the package is left CANCELLING
+    ensures("no_order_left_in_flight", implies(answered(order_package), forall(lambda k: order_package._orders[k].status != OrderStatus.CANCELLING, 0, len(order_package._orders))))
+    ensures("an_order_without_report_is_executable_again", implies(answered(order_package), forall(lambda k: implies(
+        old(order_package._orders[k].status) == OrderStatus.CANCELLING
+        and not exists(lambda j: order_package._response.cancel_instruction_reports[j].instruction.bet_id == order_package._orders[k].bet_id, 0, len(order_package._response.cancel_instruction_reports)),
+        order_package._orders[k].status == OrderStatus.EXECUTABLE), 0, len(order_package._orders))))
+    # C11 "each local order agrees with the exchange on whether it is complete": every report of the answer was applied to the
+    # order with its bet id; that order is complete exactly when nothing remains at the exchange (cancel_outcome), else EXECUTABLE
+    ensures("each_report_is_applied_to_its_order", implies(answered(order_package), forall(lambda k: forall(lambda j: implies(
+        old(order_package._orders[k].status) == OrderStatus.CANCELLING and order_package._response.cancel_instruction_reports[j].instruction.bet_id == order_package._orders[k].bet_id,
+        cancel_outcome(order_package._orders[k], order_package._response.cancel_instruction_reports[j], old(order_package._orders[k].size_remaining))),
+        0, len(order_package._response.cancel_instruction_reports)), 0, len(order_package._orders))))
     modifies(order_package, "_retry_count")
+    modifies(order_package, "_response")  # ghost
     modifies_all("BaseOrder.status")
     modifies_all("BaseOrder.complete")
     modifies_all("BaseOrder.date_time_status_update")
